@@ -8,6 +8,7 @@
 //! Exit status: 0 = ran to completion (disagreements are in the report), 2 = tool error.
 
 mod api;
+mod compile;
 mod exec;
 mod record;
 mod util;
@@ -35,6 +36,7 @@ fn main() {
         "verdicts" => cmd_verdicts(&args[2..]),
         "record-interp" => cmd_record_interp(&args[2..]),
         "record-api" => cmd_record_api(&args[2..]),
+        "compiles" => cmd_compiles(&args[2..]),
         other => {
             eprintln!("unknown command {other}");
             2
@@ -366,4 +368,107 @@ fn cmd_record_api(args: &[String]) -> i32 {
     std::fs::write(format!("{out}.summary.json"), serde_json::to_string(&summary).unwrap()).unwrap();
     println!("record-api[{kind}]: {} histories, {} events, {} crashed", jobs.len(), events, crashed.len());
     0
+}
+
+/// rv compiles --cases F --report R          MC_Safety records: expected compile outcomes
+/// rv compiles --random N --seed S --out F   random accepted programs -> events for TraceCompile
+/// rv compiles --ladder "n1,n2,.." --engines jit,cl --report R
+fn cmd_compiles(args: &[String]) -> i32 {
+    exec::calibrate_helpers();
+    if let Some(path) = arg(args, "--cases") {
+        let report_path = arg(args, "--report").expect("--report");
+        let recs: Vec<Value> = read_ndjson(path).into_iter().filter(|r| r["accept"] == json!(true)).collect();
+        let results = run_isolated(&recs, 60000, compile::run_compile_record);
+        let mut fails = Vec::new();
+        let mut nfail = 0u64;
+        let mut compilations = 0u64;
+        let mut samples = Vec::new();
+        for (rec, r) in recs.iter().zip(results.iter()) {
+            let (bad, obs) = match r {
+                ChildResult::Done(v) => (compile::judge_compile_record(rec, v), v.clone()),
+                ChildResult::Signal(s) => (vec![format!("compilation killed the process (signal {s})")], json!({"signal": s})),
+                ChildResult::Timeout => (vec!["compilation timed out".to_string()], json!({})),
+                ChildResult::Exit(c) => (vec![format!("process exited {c}")], json!({})),
+            };
+            compilations += 2 * arr(&obs["obs"]).len() as u64;
+            if bad.is_empty() {
+                if samples.len() < 2 {
+                    samples.push(json!({"record": rec, "observed": obs}));
+                }
+            } else {
+                nfail += 1;
+                if fails.len() < 200 {
+                    fails.push(json!({"record": rec, "observed": obs, "reason": bad.join(" | ")}));
+                }
+            }
+        }
+        let report = json!({"programs": recs.len(), "compilations": compilations, "fail": nfail, "failures": fails, "samples": samples});
+        std::fs::write(report_path, serde_json::to_string(&report).unwrap()).unwrap();
+        println!("compiles: {} accepted programs, {} compilations, {} failing programs", recs.len(), compilations, nfail);
+        return 0;
+    }
+    if let Some(n) = arg(args, "--random") {
+        let n: usize = n.parse().unwrap();
+        let seed: u64 = arg(args, "--seed").map(|s| s.parse().unwrap()).unwrap_or(1);
+        let out = arg(args, "--out").expect("--out");
+        let jobs = compile::gen_jobs(seed, 3 * n + 10);
+        let results = run_isolated(&jobs, 60000, compile::run_random_compile);
+        use std::io::Write;
+        let mut f = std::fs::File::create(out).unwrap();
+        let mut progs = 0usize;
+        let mut events = 0usize;
+        let mut crashed = Vec::new();
+        for (job, r) in jobs.iter().zip(results.iter()) {
+            if progs >= n {
+                break;
+            }
+            match r {
+                ChildResult::Done(v) => {
+                    if v["rejected"] == json!(true) {
+                        continue;
+                    }
+                    progs += 1;
+                    for e in arr(&v["events"]) {
+                        writeln!(f, "{}", serde_json::to_string(&e).unwrap()).unwrap();
+                        events += 1;
+                    }
+                }
+                ChildResult::Signal(s) => crashed.push(json!({"case": job["case"], "how": format!("signal {s}")})),
+                ChildResult::Timeout => crashed.push(json!({"case": job["case"], "how": "timeout"})),
+                ChildResult::Exit(c) => crashed.push(json!({"case": job["case"], "how": format!("exit {c}")})),
+            }
+        }
+        std::fs::write(format!("{out}.summary.json"), serde_json::to_string(&json!({"programs": progs, "events": events, "crashed": crashed})).unwrap()).unwrap();
+        println!("compiles --random: {progs} programs, {events} compile events, {} crashed", crashed.len());
+        return 0;
+    }
+    if let Some(l) = arg(args, "--ladder") {
+        let report_path = arg(args, "--report").expect("--report");
+        let engines: Vec<&str> = arg(args, "--engines").unwrap_or("jit,cl").split(',').collect();
+        let timeout: i32 = arg(args, "--timeout-ms").map(|s| s.parse().unwrap()).unwrap_or(120000);
+        let mut jobs = Vec::new();
+        for n in l.split(',') {
+            let n: u64 = n.parse().unwrap();
+            for e in &engines {
+                let kinds: &[&str] = if *e == "jit" { &["raw", "mbuff", "fixed"] } else { &["raw"] };
+                for k in kinds {
+                    jobs.push(json!({"n": n, "vm": k, "engine": e}));
+                }
+            }
+        }
+        let results = run_isolated(&jobs, timeout, compile::run_ladder);
+        let mut rows = Vec::new();
+        for (job, r) in jobs.iter().zip(results.iter()) {
+            rows.push(match r {
+                ChildResult::Done(v) => v.clone(),
+                ChildResult::Signal(s) => json!({"n": job["n"], "vm": job["vm"], "engine": job["engine"], "res": format!("signal {s}")}),
+                ChildResult::Timeout => json!({"n": job["n"], "vm": job["vm"], "engine": job["engine"], "res": "timeout"}),
+                ChildResult::Exit(c) => json!({"n": job["n"], "vm": job["vm"], "engine": job["engine"], "res": format!("exit {c}")}),
+            });
+        }
+        std::fs::write(report_path, serde_json::to_string(&json!({"rows": rows})).unwrap()).unwrap();
+        println!("compiles --ladder: {} rows", rows.len());
+        return 0;
+    }
+    2
 }
